@@ -67,6 +67,7 @@ static void fill_int()
     OP2("op_shl_v", x << y);
     OP2("op_shr_v", x >> y);
     OP1K("rotl_s", xs::rotl(x, k));
+    OP1K("ipow", xs::pow(x, k));
     OP1K("rotr_s", xs::rotr(x, k));
     OP2("rotl_v", xs::rotl(x, y));
     OP2("rotr_v", xs::rotr(x, y));
